@@ -1,4 +1,5 @@
 import GtirbVerif.Lemmas.Intervals
+import GtirbVerif.Lemmas.FirstAlign
 
 /-!
 # C10 — no-op rewrites are the identity; split/join round-trips; alignment
@@ -14,7 +15,11 @@ import GtirbVerif.Lemmas.Intervals
   initialized interval exactly — address, size, bytes, blocks and table entries at their
   offsets (as sets) — for every nop encoding; one iteration of the cut loop is undone by
   appending; a cut keeps the bytes and the absolute address of every block it moves; the
-  padding arithmetic reaches the boundary with less than one boundary of padding.
+  padding arithmetic reaches the boundary with less than one boundary of padding; the padding the
+  listing specification (`Listing.layoutPieces`, the oracle for "the only bytes added are whole
+  nops or zeros") puts in front of a piece is shorter than the strictest alignment requested at
+  the piece's first aligned offset and satisfies *every* request made there (a block's own
+  `.align` and a patch's at offset 0), alignments being powers of two.
 -/
 namespace GtirbVerif.Props.C10
 open GtirbVerif.Intervals
@@ -66,7 +71,42 @@ theorem padding_reaches_the_boundary (x a : Nat) (ha : 1 < a) :
   · have := Nat.div_mul_le_self (x + a - 1) a
     omega
 
+/-- **alignment in the listing specification**: with the padding of `layoutPieces` in front of a
+piece, every alignment requested at the piece's first aligned offset holds (`x` = address of the
+piece before padding, `o` that offset), and the padding is shorter than the strictest of them -/
+theorem listing_padding_satisfies_every_request_at_the_first_aligned_offset
+    (as : List (Nat × Nat)) (o i x : Nat) (hi : 0 < i)
+    (h : Listing.firstAlign as = some (o, 2 ^ i)) (hpow : ∀ p ∈ as, ∃ j, p.2 = 2 ^ j) :
+    Listing.alignUpN (x + o) (2 ^ i) - (x + o) < 2 ^ i ∧
+    ∀ p ∈ as, p.1 = o → (x + (Listing.alignUpN (x + o) (2 ^ i) - (x + o)) + o) % p.2 = 0 := by
+  have ha : 1 < 2 ^ i := Nat.one_lt_two_pow (by omega)
+  have hal : Listing.alignUpN (x + o) (2 ^ i) % 2 ^ i = 0 ∧ x + o ≤ Listing.alignUpN (x + o) (2 ^ i) ∧
+      Listing.alignUpN (x + o) (2 ^ i) < x + o + 2 ^ i := by
+    unfold Listing.alignUpN
+    have h1 : ¬ 2 ^ i ≤ 1 := by omega
+    simp only [h1, if_false]
+    have hpos : 0 < 2 ^ i := by omega
+    refine ⟨Nat.mul_mod_left _ _, ?_, ?_⟩
+    · have := Nat.div_add_mod (x + o + 2 ^ i - 1) (2 ^ i)
+      have hm := Nat.mod_lt (x + o + 2 ^ i - 1) hpos
+      rw [Nat.mul_comm] at this
+      omega
+    · have := Nat.div_mul_le_self (x + o + 2 ^ i - 1) (2 ^ i)
+      omega
+  obtain ⟨hmod, hge, hlt⟩ := hal
+  refine ⟨by omega, ?_⟩
+  intro p hp hpo
+  obtain ⟨_, _, hmax⟩ := Listing.firstAlign_spec as o (2 ^ i) h
+  obtain ⟨j, hj⟩ := hpow p hp
+  have hle : 2 ^ j ≤ 2 ^ i := by rw [← hj]; exact hmax p hp hpo
+  have hji : j ≤ i := (Nat.pow_le_pow_iff_right (by omega : 1 < 2)).mp hle
+  have hdvd : p.2 ∣ 2 ^ i := by rw [hj]; exact Nat.pow_dvd_pow 2 hji
+  have hpos : x + (Listing.alignUpN (x + o) (2 ^ i) - (x + o)) + o = Listing.alignUpN (x + o) (2 ^ i) := by omega
+  rw [hpos]
+  exact Nat.mod_eq_zero_of_dvd (Nat.dvd_trans hdvd (Nat.dvd_of_mod_eq_zero hmod))
+
 /-! ### non-vacuity -/
+example : Listing.firstAlign [(0, 4), (3, 8), (0, 16)] = some (0, 16) := by decide
 private def demo : Iv :=
   { addr := some 4096, size := 6, contents := [1, 2, 3, 4, 5, 6],
     blocks := [⟨1, 0, 2, true⟩, ⟨2, 1, 2, true⟩, ⟨3, 3, 0, false⟩, ⟨4, 4, 2, false⟩],
